@@ -38,7 +38,7 @@ def parse_file(path, data):
 class C11(Property):
     ID = "C11"
     SESSIONS = ["s0", "s1"]
-    RUNS = {"quick": (2000, 2000), "thorough": (40000, 40000)}
+    RUNS = {"quick": (6000, 6000), "thorough": (150000, 150000)}
 
     def config(self, rng, tier, faulty):
         big = 48 if tier == "thorough" else 24
